@@ -1,9 +1,7 @@
 SPECIFICATION Spec
-CONSTANTS MaxRuns = 3 MaxTouch = 99
-  Scens <- ScenPlain1
-  Settings <- SettingsDefault
+CONSTANTS
+  Plans <- PlansPinned
   CreatedSetsChanged = FALSE
-  Reuses = {FALSE}
   AutoReload = TRUE
   KeepHistory = FALSE
 VIEW view
